@@ -88,9 +88,10 @@ const (
 	stAdvanced // initial state signed by both and enabled (phase Funding)
 	stStaged   // funded, one update staged and signed by one side
 	stRemoved
+	stFunded // funded, nothing staged: an update was staged, signed by one side and discarded (peer rejection)
 )
 
-var stNames = []string{"absent", "created", "advanced", "staged", "removed"}
+var stNames = []string{"absent", "created", "advanced", "staged", "removed", "funded"}
 
 type cworld struct {
 	b     *backing
@@ -117,7 +118,7 @@ func (w *cworld) own(i int) int {
 func (w *cworld) close() { w.b.close() }
 
 func (w *cworld) live(i int) bool {
-	return w.st[i] == stCreated || w.st[i] == stAdvanced || w.st[i] == stStaged
+	return w.st[i] == stCreated || w.st[i] == stAdvanced || w.st[i] == stStaged || w.st[i] == stFunded
 }
 
 type cop struct {
@@ -128,7 +129,7 @@ type cop struct {
 func (o cop) name() string { return fmt.Sprintf("%s(c%d)", o.kind, o.ch+1) }
 
 func cAlphabet() []cop {
-	kinds := []string{"Create", "Advance", "Stage", "Remove"}
+	kinds := []string{"Create", "Advance", "Stage", "Reject", "Remove"}
 	var out []cop
 	for _, k := range kinds {
 		for i := 0; i < nChan; i++ {
@@ -144,8 +145,8 @@ func (w *cworld) offered(o cop) bool {
 		return w.st[o.ch] == stAbsent || w.st[o.ch] == stRemoved
 	case "Advance":
 		return w.st[o.ch] == stCreated
-	case "Stage":
-		return w.st[o.ch] == stAdvanced
+	case "Stage", "Reject":
+		return w.st[o.ch] == stAdvanced || w.st[o.ch] == stFunded
 	case "Remove":
 		return w.live(o.ch)
 	}
@@ -200,10 +201,12 @@ func (w *cworld) do(o cop) (err error) {
 			return err
 		}
 		w.st[i] = stAdvanced
-	case "Stage":
+	case "Stage", "Reject":
 		m := &w.pm[i]
-		if err := m.SetFunded(ctx); err != nil {
-			return err
+		if w.st[i] == stAdvanced {
+			if err := m.SetFunded(ctx); err != nil {
+				return err
+			}
 		}
 		s := w.sm[i].State().Clone()
 		s.Version++
@@ -216,6 +219,12 @@ func (w *cworld) do(o cop) (err error) {
 			return err
 		}
 		w.st[i] = stStaged
+		if o.kind == "Reject" { // the peer rejects: the staged, half-signed update is discarded
+			if err := m.DiscardUpdate(ctx); err != nil {
+				return err
+			}
+			w.st[i] = stFunded
+		}
 	case "Remove":
 		m := &w.pm[i]
 		if w.st[i] == stCreated {
@@ -605,7 +614,7 @@ func c11Search(t *testing.T, res *report.Result, c4Idx int, backends []string, d
 	if int64(maxDepth) > res.Counters["max_depth"] {
 		res.Counters["max_depth"] = int64(maxDepth)
 	}
-	res.Note("C11, own index %d in the 10-party channel c4: alphabet {Create, Advance, Stage, Remove} x %d channels, backends %v, states=%d, transitions=%d, depth=%d", c4Idx, nChan, backends, nStates, nTrans, maxDepth)
+	res.Note("C11, own index %d in the 10-party channel c4: alphabet {Create, Advance, Stage, Reject, Remove} x %d channels, backends %v, states=%d, transitions=%d, depth=%d", c4Idx, nChan, backends, nStates, nTrans, maxDepth)
 }
 
 func c11Run(t *testing.T, res *report.Result) {
